@@ -1059,7 +1059,7 @@ def C10(tier):
     nh, steps = (16, 80) if tier == 'quick' else (120, 160)
     bad = None
     cases = 0
-    prefixes = [None, 'q', 'jobs', 'a-b', 'z9']
+    prefixes = [None, 'q', 'jobs', 'a-b', 'z9', '']        # '' is a prefix like any other, not "no prefix"
     for h in range(nh):
         rnd = random.Random(seed0 * 1000 + h)
         d = tempfile.mkdtemp()
@@ -1613,6 +1613,31 @@ def _txn_standin(pid, tier):
     try:
         c = diskcache.Cache(d + '/a', disk_min_file_size=64)
         other = diskcache.Cache(d + '/a')
+        # a paused iteration does not pin a snapshot: lookups made between two items see what other clients
+        # have completed meanwhile, and writes of this client still get the lock
+        pi = diskcache.Cache(d + '/iter')
+        po = diskcache.Cache(d + '/iter')
+        for i in range(5):
+            pi.set('k%d' % i, i)
+        for how, make in (('iter', lambda: iter(pi)), ('reversed', lambda: reversed(pi)), ('iterkeys', lambda: pi.iterkeys()),
+                          ('iterkeys(reverse)', lambda: pi.iterkeys(reverse=True))):
+            cases += 1
+            itr = make()
+            next(itr)
+            po.set('seen-' + how, 1)
+            po.set('k1', 'new-' + how)
+            po.delete('k4')
+            try:
+                fresh = (pi.get('seen-' + how), pi.get('k1'), 'k4' in pi)
+                pi.set('own-' + how, 2)          # retry=False: must not time out
+            except Exception as e:
+                fresh = repr(e)
+            if fresh != (1, 'new-' + how, False):
+                bad = bad or 'with %s paused after one item, this client reads %r although another client completed set/set/delete' % (how, fresh)
+            del itr
+            pi.set('k4', 4)
+        pi.close()
+        po.close()
         # all-or-nothing for inline values; nesting; ownership
         c.update = None
         c.set('a', 1)
@@ -1723,7 +1748,8 @@ def C07(tier):
 import os, sys, diskcache
 from diskcache import core
 d, op, point = sys.argv[1], sys.argv[2], int(sys.argv[3])
-c = diskcache.Cache(d, disk_min_file_size=64)
+if op != 'open':
+    c = diskcache.Cache(d, disk_min_file_size=64)
 n = [0]
 def tick():
     n[0] += 1
@@ -1744,7 +1770,9 @@ real_write = core.Disk._write
 def _write(self, *a, **k):
     tick(); r = real_write(self, *a, **k); tick(); return r
 core.Disk._write = _write
-if op == 'set': c.set('new', b'n' * 300)
+if op == 'open':
+    c = diskcache.Cache(d, disk_min_file_size=64)      # first open of a fresh directory, killed part-way
+elif op == 'set': c.set('new', b'n' * 300)
 elif op == 'replace': c.set('victim', b'r' * 300)
 elif op == 'pop': c.pop('victim')
 elif op == 'delete': c.delete('victim')
@@ -1754,18 +1782,28 @@ os._exit(0)
     try:
         open(d0 + '/child.py', 'w').write(script)
         env = dict(os.environ)
-        for op in ('set', 'replace', 'pop', 'delete'):
-            for point in range(1, 16 if tier == 'quick' else 40):
+        for op in ('set', 'replace', 'pop', 'delete', 'open'):
+            points = range(1, 16 if tier == 'quick' else 40)
+            if op == 'open':
+                points = range(1, 120, 4 if tier == 'quick' else 1)
+            for point in points:
                 cases += 1
                 d = tempfile.mkdtemp()
                 try:
-                    c = diskcache.Cache(d, disk_min_file_size=64)
-                    c.set('victim', b'v' * 300)
-                    c.set('other', b'o' * 300)
-                    c.close()
+                    if op != 'open':
+                        c = diskcache.Cache(d, disk_min_file_size=64)
+                        c.set('victim', b'v' * 300)
+                        c.set('other', b'o' * 300)
+                        c.close()
                     subprocess.run([sys.executable, d0 + '/child.py', d, op, str(point)], env=env, timeout=60)
-                    c = diskcache.Cache(d, disk_min_file_size=64)
                     where = 'kill at effect boundary %d of %s' % (point, op)
+                    try:
+                        c = diskcache.Cache(d, disk_min_file_size=64)
+                    except Exception as e:
+                        bad = bad or where + ': the directory cannot be opened any more: %r' % (e,)
+                        break
+                    if op == 'open':
+                        c.set('other', b'o' * 300)
                     if c.get('other') != b'o' * 300:
                         bad = bad or where + ': unrelated item damaged'
                     for k in list(c):
@@ -1799,7 +1837,7 @@ os._exit(0)
     finally:
         shutil.rmtree(d0, ignore_errors=True)
     return [result('C07.standin.kill_points', bad is None,
-                   'set / replace / pop / delete of file-backed items, killed at each of the first %d effect boundaries (before/after every SQL statement, file write, file removal)' % (15 if tier == 'quick' else 39), cases, bad)]
+                   'set / replace / pop / delete of file-backed items, killed at each of the first %d effect boundaries (before/after every SQL statement, file write, file removal); first open of a fresh directory killed at %s statement boundary' % (15 if tier == 'quick' else 39, 'every 4th' if tier == 'quick' else 'every'), cases, bad)]
 
 
 # ====================================================================== recipes (C15)
